@@ -6,7 +6,8 @@ cd /verif
 if [ -n "$(git -C /repo status --porcelain)" ]; then echo "repo not clean"; exit 2; fi
 git -C /repo apply "$patch" || exit 2
 for c in "$@"; do
-  out=$(./vcheck $c quick 2>&1)
+  mkdir -p /tmp/seedtest_out
+  out=$(VERIF_OUT_DIR=/tmp/seedtest_out ./vcheck $c quick 2>&1)
   rc=$?
   nv=$(echo "$out" | grep -c "^VIOLATION property=$c")
   echo "$c rc=$rc violations=$nv $(echo "$out" | grep "^check " | sed 's/.*wall=/wall=/')"
